@@ -109,25 +109,6 @@ theorem Rel.betweenKernel_congr {x x' lo lo' hi hi' : Value} (hx : Rel x x') (hl
   unfold betweenKernel
   rw [hl.compareBy_congr hh, hl.compareBy_congr hx, hx.compareBy_congr hh]
 
-/-- the sniffed loop of `execEqualBatch` agrees with `execEqual` wherever it succeeds -/
-theorem equalBatchRow_ok {k : EqKind} {x z : Value} {c : Bool} (h : equalBatchRow k x z = .ok c) :
-    equalRow x z = .ok c := by
-  cases k
-  · -- text
-    unfold equalBatchRow at h
-    dsimp only at h
-    cases x <;> simp [convertToByteArray] at h <;> simp [equalRow, convertToByteArray] <;> exact h
-  · -- numbers
-    unfold equalBatchRow at h
-    dsimp only at h
-    cases x <;> first
-      | exact h
-      | (simp [numberEqual, execNumberCompare, convertToInt, convertToFloat] at h)
-  · -- Booleans
-    unfold equalBatchRow at h
-    dsimp only at h
-    cases x <;> cases z <;> simp at h <;> simp [equalRow, h]
-
 /-- field access: where batch succeeds the row evaluator succeeds with the same member -/
 theorem Rel.dictAccess_congr {x x' y : Value} (k : Bytes) (h : Rel x x') (hy : dictAccess k x = .ok y) :
     dictAccess k x' = .ok y := by
